@@ -208,3 +208,18 @@ Theorem C17_model_is_source_boxcox_shifted :
   forall (T : Type) (O : Ops T) (x lambda alpha : T),
     src_boxcox_shifted O x lambda alpha = boxcox_shifted O x lambda alpha.
 Proof. exact @tiea_boxcox_shifted. Qed.
+
+(** ** Tie A for [softmax]: the model IS the source.  [Generated/transforms_loops.v] is regenerated on every run from
+    src/functions/statistical.rs by the statement-level translator (tools/rsexpr.py, target
+    tools/tiea/transforms_loops.py): [x.iter().cloned().fold(f64::NEG_INFINITY, f64::max)], the collected exponentials,
+    [Iterator::sum] from -0.0 and the quotients.  The model represents the seed -inf by "nothing seen yet"; the two agree
+    on every carrier on which -inf is neutral for [f64::max] (the hypothesis, written out), and binary64 is one. *)
+From Compute Require Import Base.RsExpr Generated.transforms_loops Proofs.TieA_transforms_loops.
+Theorem C17_model_is_source_softmax :
+  forall (T : Type) (O : Ops T),
+    (forall v : T, fmax O (rs_f64_neg_infinity O) v = if is_nan O v then rs_f64_neg_infinity O else v) ->
+    forall x : list T, src_softmax O x = softmax O x.
+Proof. exact @tiea_softmax. Qed.
+Theorem C17_model_is_source_softmax_binary64 :
+  forall (t : libm_table) (x : list PrimFloat.float), src_softmax (FO t) x = softmax (FO t) x.
+Proof. intros t x. exact (tiea_softmax (FO t) (ninf_neutral_FO t) x). Qed.
